@@ -17,7 +17,7 @@ Fixpoint blocks (start : Z) (sizes : list Z) : list (Z * Z) :=
   end.
 
 Section Dask.
-  Variable key : Z -> Z -> Z.
+  Variable key : Z -> Z -> Z -> Z -> Z.
   Variable tie_up : Z -> bool.
   Variables R M : ext.
   Variables xc yc : list (option Z).
@@ -94,12 +94,12 @@ Definition enc_cell (x : lpv * option (Z * Z)) : Z * (Z * Z) :=
 Definition run_model_dask (metric : Z) (ties : list Z) (R M F : ext) (mdn mdd : Z)
            (xc yc : list (option Z)) (values : list xv) (rch cch : list Z) (img : list (list xv))
   : (Z * Z) * list (list (Z * (Z * Z))) :=
-  let key := if metric =? 2 then key_manhattan else key_euclid in
+  let key := metric_of_key (if metric =? 2 then key_manhattan else key_euclid) in
   let tie := fun k => existsb (Z.eqb k) ties in
   let d := if mdd =? 0 then (0, 0) else halo (Qmake mdn (Z.to_pos mdd)) xc yc in
   (d, map (map enc_cell) (run_dask key tie R M xc yc values img F rch cch (fst d) (snd d))).
 Definition run_model_whole (metric : Z) (ties : list Z) (R M : ext)
            (xc yc : list (option Z)) (values : list xv) (img : list (list xv)) : list (list (Z * (Z * Z))) :=
-  let key := if metric =? 2 then key_manhattan else key_euclid in
+  let key := metric_of_key (if metric =? 2 then key_manhattan else key_euclid) in
   let tie := fun k => existsb (Z.eqb k) ties in
   map (map enc_cell) (whole key tie R M xc yc values img).
